@@ -64,6 +64,14 @@ impl From<layout::Error> for Error {
 #[path = "/repo/parser/src/layout.rs"]
 mod layout;
 
+// Part 1b (tokenizer correspondence): the real str_suffix.rs here, the real token.rs inside
+// `toklex::real` (they refer to `crate::str_suffix`, `crate::ParserSource`, `crate::base`).
+pub use gluon_parser::ParserSource;
+#[path = "/repo/parser/src/str_suffix.rs"]
+mod str_suffix;
+#[path = "c09/toklex.rs"]
+mod toklex;
+
 use base::metadata::{Comment, CommentType};
 use base::pos::{self, BytePos, Column, Line, Location, Span, Spanned};
 use gluon::ThreadExt;
@@ -2148,6 +2156,12 @@ fn replay(out: &mut Out, file: &std::path::Path) {
     let v: serde_json::Value = serde_json::from_str(&std::fs::read_to_string(file).expect("replay file")).expect("json");
     let case = if v.get("case").is_some() { v["case"].clone() } else { v.clone() };
     match case["kind"].as_str().unwrap_or("") {
+        "lex" => {
+            let text = case["text"].as_str().unwrap_or("");
+            let r = toklex::run_real(text);
+            println!("replay lex ({} bytes): panic={:?} fuel={} {}", text.len(), r.panic, r.fuel, r.payload);
+            toklex::tok_case(out, text, "replay");
+        }
         "layout" => {
             let mut toks = parse_request(case["request"].as_str().unwrap_or(""));
             let eof = toks.pop().expect("eof token");
@@ -2209,8 +2223,12 @@ fn main() {
         }
     }
 
+    // debugging aid: GV_C09_PART=lex runs only the tokenizer correspondence
+    let only_lex = std::env::var("GV_C09_PART").map(|v| v == "lex").unwrap_or(false);
+
     // ---- Part 1: layout correspondence ----------------------------------------------------------
     let mut rng = Rng::new(args.seed, 901);
+    if !only_lex {
     for c in &corpus_cases {
         layout_case(&mut out, &lex(&c.text), eof_for(&c.text), "corpus");
     }
@@ -2235,6 +2253,35 @@ fn main() {
         let (text, origin) = gen_text(&mut rng_t, &seeds);
         let text = clip(text);
         layout_case(&mut out, &lex(&text), eof_for(&text), &format!("text:{}", origin));
+    }
+    }
+
+    // ---- Part 1b: tokenizer correspondence (real token.rs vs GluonModel.Tokenizer) -------------
+    for c in &corpus_cases {
+        toklex::tok_case(&mut out, &c.text, "corpus");
+    }
+    for p in SMALL {
+        toklex::tok_case(&mut out, p, "small");
+    }
+    for w in ["", "#!", "r", "r#", "'", "\"", "/*", "/**/", "0x", "-", "7T", "'a\u{e9}", "\u{e9}", "#foo+ bar"] {
+        toklex::tok_case(&mut out, w, "fixed");
+    }
+    let n_lex = if thorough { 40000 } else { 3000 };
+    let mut rng_l = Rng::new(args.seed, 905);
+    for i in 0..n_lex {
+        if i % 8 == 7 {
+            // the texts of the front-end oracle (seed programs, their mutations, random bytes)
+            let (text, _) = gen_text(&mut rng_l, &seeds);
+            toklex::tok_case(&mut out, &clip(text), "front-end-text");
+        } else {
+            let (text, origin) = toklex::gen_lex_text(&mut rng_l);
+            toklex::tok_case(&mut out, &clip(text), origin);
+        }
+    }
+
+    if only_lex {
+        out.finish();
+        return;
     }
 
     // ---- Part 2: front-end oracle ---------------------------------------------------------------
